@@ -231,16 +231,32 @@ def render(lines, lang="c"):
     return "\n".join(out) + "\n", nodes
 
 
-MODES = {"-fa": ("ma", ["MV=1"]), "-fb": ("mb", ["MV=2"]), "-fc": ("mc", ["MX"])}
+# the user-defined compiler "mycc" written to .cbi/config: flag -> (mode name, defines, include directories)
+MODES = {"-fa": ("ma", ["MV=1"], []), "-fb": ("mb", ["MV=2"], []), "-fc": ("mc", ["MX"], [["arch", "m"]])}
+# and its passes, selected together by --arch=a,b,... : letter -> (defines, include directories)
+PASSES = {"a": (["PA"], [["arch", "a"]]), "b": (["PB"], [["arch", "b"]]), "c": (["MV=2"], [["arch", "a"], ["arch", "m"]])}
+ARCH_DIRS = [["arch", "a"], ["arch", "b"], ["arch", "m"]]
 
 
-def entry_defines(case, pname, defs):
-    """the -D list of one compile command in the order finder.find sees it: the command line's -D options in
-    order, then the defines of the active compiler modes in the order their flags appear on the command line."""
-    out = list(defs)
-    for flag in dict.fromkeys(case.get("opts", {}).get(pname, {}).get("modes", [])):
-        out += MODES[flag][1]
+def command_entries(case, pname, defs):
+    """The preprocessor configurations config.ArgumentParser.parse_args makes of ONE compile command, as
+    (defines, include search list) in the order finder.find sees them: the 'default' pass = the command line's -D
+    and -I options followed by what the active modes add, in the order of their flags; and one further,
+    independent configuration per selected pass = the command line's options followed by what that pass adds."""
+    opts = case.get("opts", {}).get(pname, {})
+    base = [case["incdirs"][i] for i in opts.get("I", [])]
+    d, sdirs = list(defs), list(base)
+    for flag in dict.fromkeys(opts.get("modes", [])):
+        d += MODES[flag][1]
+        sdirs += MODES[flag][2]
+    out = [(d, sdirs)]
+    for letter in dict.fromkeys(opts.get("passes", [])):
+        out.append((list(defs) + PASSES[letter][0], list(base) + PASSES[letter][1]))
     return out
+
+
+def n_events(case):
+    return sum(len(comp) * len(command_entries(case, name, defs)) for name, defs, comp in case["plats"])
 
 
 def resolve(case, name, this_dir, search):
@@ -315,23 +331,25 @@ def walk(case, idx, env, search, out, depth):
 
 
 def entry_hits(case, pname, defs, c):
-    """(path, node) pairs associated by one compile command: forced includes first, then the file, one macro
-    table for the whole command."""
+    """For one compile command: per preprocessor configuration (pass) the (path, node) pairs it associates:
+    forced includes first, then the file, one macro table per configuration."""
     opts = case.get("opts", {}).get(pname, {})
     fidx = comp_target(case, c)[0]
-    env = {}
-    for d in entry_defines(case, pname, defs):
-        m, eq, v = d.partition("=")
-        env.setdefault(m, v if eq else "1")
-    search = [case["incdirs"][i] for i in opts.get("I", [])]
-    out = []
     this_dir = case["files"][fidx][0][:-1]
-    for name in opts.get("include", []):
-        t = resolve(case, name, this_dir, search)
-        if t is not None:
-            walk(case, t, env, search, out, 0)
-    walk(case, fidx, env, search, out, 0)
-    return out
+    res = []
+    for defines, search in command_entries(case, pname, defs):
+        env = {}
+        for d in defines:
+            m, eq, v = d.partition("=")
+            env.setdefault(m, v if eq else "1")
+        out = []
+        for name in opts.get("include", []):
+            t = resolve(case, name, this_dir, search)
+            if t is not None:
+                walk(case, t, env, search, out, 0)
+        walk(case, fidx, env, search, out, 0)
+        res.append(out)
+    return res
 
 
 def nodes_of_file(f):
@@ -566,6 +584,31 @@ class C14(Check):
                 if r.random() < 0.45:
                     o["modes"] = r.sample(list(MODES), r.randint(2, 3))
                 opts[pl[0]] = o
+        # a user compiler with flag-selected PASSES (and a mode) that each declare include directories holding a
+        # header of the same name with a different effect; commands select several passes at once
+        if r.random() < 0.5:
+            effects = [["MV", 1], ["MV", 2], ["MX", ""], ["MY", ""], ["MV", 1], ["MV", 2]]
+            for d in ARCH_DIRS:
+                if pstr(d + ["arch.h"]) in used:
+                    continue
+                m, v = r.choice(effects)
+                body = [["D", m, v]] + ([["C", r.randint(1, 2), 0]] if r.random() < 0.5 else [])
+                if r.random() < 0.5:
+                    body += [["I", r.choice(["PA", "PB"])], ["C", 1, 1], ["X"]]
+                files.append([d + ["arch.h"], body])
+                used.add(pstr(d + ["arch.h"]))
+            for i in srcs:
+                if lang_of(files[i][0]) != "asm" and r.random() < 0.8:
+                    files[i][1].insert(0, ["H", "arch.h", None])
+                    files[i][1] += [["Q", "MV", r.choice([1, 2])], ["C", r.randint(1, 2), 0], ["E"], ["C", r.randint(1, 3), 1], ["X"]]
+            some = False
+            for pl in plats:
+                if r.random() < 0.7 or not some:
+                    some = True
+                    o = opts.setdefault(pl[0], {})
+                    o["passes"] = r.sample(list(PASSES), r.randint(2, 3))
+                    if r.random() < 0.4 and "modes" not in o:
+                        o["modes"] = r.sample(list(MODES), r.randint(1, 3))
         # symbolic links whose name falls into ANOTHER language class than the file they point to, some of them
         # named by compile commands
         links = []
@@ -586,10 +629,12 @@ class C14(Check):
         for k in range(4):
             sched.append([self.HASHSEEDS[k] if k < 4 else "random", r.randint(0, 10 ** 6), r.randint(0, 10 ** 6), r.randint(0, 10 ** 6)])
         sched[3][0] = "random"
-        nev = sum(len(p[2]) for p in plats)
+        proto = {"files": files, "links": links, "incdirs": incdirs, "opts": opts, "plats": plats}
+        nev = n_events(proto)
+        ncev = len(plats[0][2]) * len(command_entries(proto, plats[0][0], plats[0][1]))
         perms = []
         for _ in range(2):
-            a, b, c = list(range(len(files) + len(links))), list(range(nev)), list(range(len(plats[0][2])))
+            a, b, c = list(range(len(files) + len(links))), list(range(nev)), list(range(ncev))
             r.shuffle(a), r.shuffle(b), r.shuffle(c)
             perms.append([a, b, c])
         return {"k": "P", "files": files, "links": links, "incdirs": incdirs, "opts": opts, "plats": plats,
@@ -634,7 +679,7 @@ class C14(Check):
             out.append(self.gen_codebase())
         for _ in range(150 if quick else 2500):
             c = self.gen_codebase()
-            nev = sum(len(p[2]) for p in c["plats"])
+            nev = n_events(c)
             perms = []
             for _ in range(2):
                 a, b = list(range(len(c["files"]) + len(c["links"]))), list(range(nev))
@@ -654,11 +699,11 @@ class C14(Check):
         events = []
         for name, defs, comp in case["plats"]:
             for c in comp:
-                events.append([name, entry_hits(case, name, defs, c)])
+                events += [[name, h] for h in entry_hits(case, name, defs, c)]
         name, defs, comp = case["plats"][0]
         cev = []
         for c in comp:
-            cev.append(["cli", entry_hits(case, name, defs, c)])
+            cev += [["cli", h] for h in entry_hits(case, name, defs, c)]
         return files, events, cev
 
     def encode(self, case):
@@ -746,14 +791,21 @@ class C14(Check):
                 os.symlink(os.path.relpath(pstr(case["files"][t][0]), os.path.dirname(pstr(lp)) or "."), fp)
         for d in case.get("incdirs", []):
             root.joinpath(*d).mkdir(parents=True, exist_ok=True)
-        if any(o.get("modes") for o in case.get("opts", {}).values()):
-            # a user-defined compiler whose modes define the same macro differently
+        if any(o.get("modes") or o.get("passes") for o in case.get("opts", {}).values()):
+            # a user-defined compiler: modes that define one macro differently / add an include directory, and
+            # passes (selected together by --arch=a,b) that each add their own defines and include directories
             cfgtxt = ["[compiler.mycc]", ""]
-            for flag, (mode, _) in MODES.items():
+            for flag, (mode, _, _) in MODES.items():
                 cfgtxt += ["[[compiler.mycc.parser]]", f'flags = ["{flag}"]', 'action = "append_const"', 'dest = "modes"',
                            f'const = "{mode}"', ""]
-            for flag, (mode, mdefs) in MODES.items():
-                cfgtxt += ["[[compiler.mycc.modes]]", f'name = "{mode}"', "defines = " + json.dumps(mdefs), ""]
+            cfgtxt += ["[[compiler.mycc.parser]]", 'flags = ["--arch"]', 'action = "store_split"', 'sep = ","',
+                       'format = "arch-$value"', 'dest = "passes"', ""]
+            for flag, (mode, mdefs, mdirs) in MODES.items():
+                cfgtxt += ["[[compiler.mycc.modes]]", f'name = "{mode}"', "defines = " + json.dumps(mdefs),
+                           "include_paths = " + json.dumps([pstr(d) for d in mdirs]), ""]
+            for letter, (pdefs, pdirs) in PASSES.items():
+                cfgtxt += ["[[compiler.mycc.passes]]", f'name = "arch-{letter}"', "defines = " + json.dumps(pdefs),
+                           "include_paths = " + json.dumps([pstr(d) for d in pdirs]), ""]
             (root / ".cbi").mkdir(exist_ok=True)
             (root / ".cbi" / "config").write_text("\n".join(cfgtxt))
         plats = list(case["plats"])
@@ -765,7 +817,9 @@ class C14(Check):
             for h in opts.get("include", []):
                 words += ["-include", h]
             words += list(opts.get("modes", []))
-            cc = "mycc" if opts.get("modes") else "cc"
+            if opts.get("passes"):
+                words.append("--arch=" + ",".join(opts["passes"]))
+            cc = "mycc" if (opts.get("modes") or opts.get("passes")) else "cc"
             db = []
             for c in comp:
                 rel = pstr(comp_target(case, c)[1])
@@ -907,9 +961,10 @@ class C14(Check):
                     prng.shuffle(comp)
                 opts = case.get("opts", {}).get(name, {})
                 cfg[name] = [{"file": str(root.joinpath(*comp_target(case, i)[1])),
-                              "defines": entry_defines(case, name, defs),
-                              "include_paths": [str(root.joinpath(*case["incdirs"][d])) for d in opts.get("I", [])],
-                              "include_files": list(opts.get("include", []))} for i in comp]
+                              "defines": list(edefs),
+                              "include_paths": [str(root.joinpath(*d)) for d in esearch],
+                              "include_files": list(opts.get("include", []))}
+                             for i in comp for edefs, esearch in command_entries(case, name, defs)]
             with shuffled_fs(sseed):
                 cb = codebasin.CodeBase(str(root))
                 state = finder.find(str(root), cb, cfg)
@@ -1009,7 +1064,7 @@ class C14(Check):
         sets = {f: [set() for _ in ns] for f, ns in nodes_of.items()}
         for name, defs, comp in case["plats"]:
             for c in comp:
-                for p, n in entry_hits(case, name, defs, c):
+                for p, n in [x for h in entry_hits(case, name, defs, c) for x in h]:
                     sets[pstr(p)][n].add(name)
         out, per_file = [], {}
         for p, _ in case["files"]:
@@ -1041,7 +1096,7 @@ class C14(Check):
             name, defs, comp = case["plats"][0]
             hits = {}
             for c in comp:
-                for p, n in entry_hits(case, name, defs, c):
+                for p, n in [x for h in entry_hits(case, name, defs, c) for x in h]:
                     hits.setdefault(pstr(p), set()).add(n)
             cov = []
             for mname, f in members:
@@ -1186,12 +1241,58 @@ class C14(Check):
             return self.shrink_F(case, still_fails)
         return self.shrink_P(case, still_fails)
 
+    @staticmethod
+    def p_fix(files, plats, sched, links=(), base=None):
+        """a well-formed P case from edited parts (model-side permutations = reversals)."""
+        c = {"k": "P", "files": files, "links": [list(l) for l in links], "plats": plats, "sched": sched,
+             "incdirs": (base or {}).get("incdirs", []), "opts": (base or {}).get("opts", {})}
+        rev = lambda n: list(reversed(range(n)))  # noqa: E731
+        ncev = len(plats[0][2]) * len(command_entries(c, plats[0][0], plats[0][1]))
+        c["perms"] = [[rev(len(files) + len(links)), rev(n_events(c)), rev(ncev)]]
+        return c
+
+    @staticmethod
+    def p_drop_link(plats, links, k):
+        """remove link k: compile commands through it go, later links are renumbered."""
+        np_ = []
+        for name, defs, comp in plats:
+            c = [x if x >= 0 or -x - 1 < k else x + 1 for x in comp if x != -(k + 1)]
+            if c:
+                np_.append([name, defs, c])
+        return np_, [l for i, l in enumerate(links) if i != k]
+
+    @staticmethod
+    def p_drop_file(files, plats, j, links=()):
+        links = [list(l) for l in links]
+        for k in range(len(links) - 1, -1, -1):
+            if links[k][1] == j:
+                plats, links = C14.p_drop_link(plats, links, k)
+        links = [[lp, t - (1 if t > j else 0)] for lp, t in links]
+        nf = []
+        for i, (p, lines) in enumerate(files):
+            if i == j:
+                continue
+            ls = []
+            for l in lines:
+                if l[0] == "H" and len(l) > 2 and l[2] is not None:
+                    if l[2] == j:
+                        continue
+                    l = ["H", l[1], l[2] - (1 if l[2] > j else 0)]
+                ls.append(l)
+            nf.append([p, ls])
+        np_ = []
+        for name, defs, comp in plats:
+            c = [(i - (1 if i > j else 0)) if i >= 0 else i for i in comp if i != j]
+            if c:
+                np_.append([name, defs, c])
+        return nf, np_, links
+
     def shrink_F(self, case, still_fails, budget=60):
         def fix(files, plats, links):
-            nev = sum(len(p[2]) for p in plats)
-            return {"k": "F", "files": files, "links": [list(l) for l in links], "plats": plats, "runs": case["runs"],
-                    "incdirs": case.get("incdirs", []), "opts": case.get("opts", {}),
-                    "perms": [[list(reversed(range(len(files) + len(links)))), list(reversed(range(nev)))]]}
+            c = {"k": "F", "files": files, "links": [list(l) for l in links], "plats": plats, "runs": case["runs"],
+                 "incdirs": case.get("incdirs", []), "opts": case.get("opts", {})}
+            c["perms"] = [[list(reversed(range(len(files) + len(links)))), list(reversed(range(n_events(c))))]]
+            return c
         if not still_fails(fix(case["files"], case["plats"], case.get("links", []))):
             return case
         return self.shrink_parts(case, fix, still_fails, budget)
@@ -1311,6 +1412,8 @@ class _C14(C14):
             elif c["k"] == "F":
                 self.stats["f_runs"] = self.stats.get("f_runs", 0) + 1 + len(c["runs"])
                 self.stats["f_cases_with_cross_language_links"] = self.stats.get("f_cases_with_cross_language_links", 0) + int(bool(c.get("links")))
+                self.stats["f_cases_with_several_passes"] = self.stats.get("f_cases_with_several_passes", 0) + \
+                    int(any(o.get("passes") for o in c.get("opts", {}).values()))
             else:
                 h = self.stats["p_files_hist"]
                 h[str(len(c["files"]))] = h.get(str(len(c["files"])), 0) + 1
@@ -1319,6 +1422,9 @@ class _C14(C14):
                 self.stats["p_cases_with_cross_language_links"] = self.stats.get("p_cases_with_cross_language_links", 0) + int(bool(c.get("links")))
                 self.stats["p_cases_with_command_through_link"] = self.stats.get("p_cases_with_command_through_link", 0) + \
                     int(any(x < 0 for pl in c["plats"] for x in pl[2]))
+                for key, field in (("p_cases_with_user_compiler_passes", "passes"), ("p_cases_with_user_compiler_modes", "modes"),
+                                   ("p_cases_with_clashing_I_directories", "I"), ("p_cases_with_forced_includes", "include")):
+                    self.stats[key] = self.stats.get(key, 0) + int(any(o.get(field) for o in c.get("opts", {}).values()))
                 inc = sum(1 for _, ls in c["files"] for l in ls if l[0] == "H")
                 per_file = self.oracle(c)["per_file"]
                 used_hdr = any(f.endswith(".h") and any(s for s, _ in rows) for f, rows in per_file.items())
